@@ -272,8 +272,6 @@ class HistSat(Hist):
             kw['solver_name'] = getattr(S.PySATSolverNames, name)
         elif how == 'value':
             kw['solver_name'] = getattr(S.PySATSolverNames, name).value
-        res = self.call(lambda: S.is_circuit_satisfiable(s.real, **kw), [s], True,
-                        f'is_circuit_satisfiable(#{s.sid}, solver={name if how != "default" else "default"}, model_order={pers})', family='C05')
         mask = (1 << (1 << n)) - 1
         assign, _ = net.std_assign()
         try:
@@ -283,6 +281,19 @@ class HistSat(Hist):
         want = mask
         for o in net.outputs:
             want &= val[o]
+        if any(f.get('kind') == 'backend-error' for f in op.get('f', ())):
+            # the solver back end fails during this query.  No answer (the exception reaches the caller) is fine; an
+            # answer that is given all the same has to be the right one.  Then the fault is over and the query is repeated.
+            try:
+                res0 = S.is_circuit_satisfiable(s.real, **kw)
+            except Exception as e:  # noqa
+                res0 = None
+                self.res.stats.probes.bump(f'sat:backend-error-reached-the-caller:{exc_name(e)}')
+            if res0 is not None and bool(res0.answer) != bool(want):
+                self.violate('C05', 'circuit-sat', 'answer:after-backend-error',
+                             f'the solver failed during the query, yet the answer {res0.answer} was given; {bin(want).count("1")} assignments make all outputs True')
+        res = self.call(lambda: S.is_circuit_satisfiable(s.real, **kw), [s], True,
+                        f'is_circuit_satisfiable(#{s.sid}, solver={name if how != "default" else "default"}, model_order={pers})', family='C05')
         if bool(res.answer) != bool(want):
             self.violate('C05', 'circuit-sat', 'answer', f'answer {res.answer} but {bin(want).count("1")} assignments make all outputs True')
         elif res.answer:
@@ -474,6 +485,16 @@ class HistSat(Hist):
         if any(o in ln.inputs for o in ln.outputs) or any(o in rn.inputs for o in rn.outputs):
             st.bump('miter:output-that-is-input')
         # satisfiable exactly when inequivalent, through the solver peer
+        if any(f.get('kind') == 'backend-error' for f in op.get('f', ())):
+            # the back end fails during the first query: an exception is fine, an answer has to be right; then again
+            try:
+                res0 = S.is_circuit_satisfiable(miter)
+            except Exception as e:  # noqa
+                res0 = None
+                st.bump(f'sat:backend-error-reached-the-caller:{exc_name(e)}')
+            if res0 is not None and bool(res0.answer) != bool(want):
+                self.violate('C13', 'sat', 'answer:after-backend-error',
+                             f'the solver failed during the query, yet satisfiable={res0.answer} was reported; the operands are {"in" if want else ""}equivalent')
         try:
             res = S.is_circuit_satisfiable(miter)
         except Exception as e:  # noqa
